@@ -1,0 +1,14 @@
+//go:build verif && !noquotas
+// +build verif,!noquotas
+
+package runtime
+
+// VerifTerminateHook is called, if not nil, at the instant a context is
+// terminated (just before the ContextTerminationError panic is raised).
+var VerifTerminateHook func(ctx RuntimeContext)
+
+func verifOnTerminate(m *runtimeContextManager) {
+	if h := VerifTerminateHook; h != nil {
+		h(m)
+	}
+}
